@@ -227,13 +227,19 @@ class Junk:
             deco = r.choice(['', 'opacity="0.5"', 'transform="translate(3 4)"', 'style="isolation:isolate"',
                              'style="mix-blend-mode:multiply"', 'clip-path="url(#%s)"' % self.nid(), 'mask="url(#%s)"' % self.nid(),
                              'opacity="0.2" transform="rotate(30)" style="mix-blend-mode:screen;isolation:isolate"',
-                             'fill="url(#%s)" stroke="red" stroke-width="5"' % self.nid()])
+                             'fill="url(#%s)" stroke="red" stroke-width="5"' % self.nid(),
+                             # an element without geometry has no region for a filter FUNCTION or for an objectBoundingBox filter:
+                             # nothing may remain of it - in particular no generated filter id may be consumed
+                             'filter="blur(2)"', 'filter="sepia()"', 'filter="drop-shadow(3 3 2 red)"', 'filter="grayscale(0.5) blur(1)"',
+                             'filter="hue-rotate(90deg)" opacity="0.5"', 'style="filter:invert(1)"', 'filter="url(#vf_missing)"',
+                             'filter="url(#%s)"' % self.nid(), 'filter="blur(1) url(#vf_missing)"'])
             # clip-path / mask that exist (inserted right behind the shape) as well as missing ones
             extra = ''
-            m = re.search(r'(clip-path|mask)="url\(#(vf_\d+)\)"', deco)
+            m = re.search(r'(clip-path|mask|filter)="url\(#(vf_\d+)\)"', deco)
             if m and r.below(2):
                 extra = ('<clipPath id="%s"><rect width="9" height="9"/></clipPath>' % m.group(2) if m.group(1) == 'clip-path'
-                         else '<mask id="%s"><rect width="9" height="9" fill="white"/></mask>' % m.group(2))
+                         else '<mask id="%s"><rect width="9" height="9" fill="white"/></mask>' % m.group(2) if m.group(1) == 'mask'
+                         else '<filter id="%s"><feFlood flood-color="red"/></filter>' % m.group(2))     # objectBoundingBox region: needs a bbox
             s = r.choice(['<rect id="%s" width="0" height="10" %s/>', '<rect id="%s" width="10" height="0" %s/>',
                           '<rect id="%s" x="4" y="4" %s/>', '<rect id="%s" width="-5" height="10" %s/>',
                           '<circle id="%s" cx="5" cy="5" r="0" %s/>', '<circle id="%s" %s/>',
@@ -369,6 +375,25 @@ def positional_docs(rng, n):
             return out + rng.choice(seps)
         docs.append('<svg %s width="200" height="200"><style>%s</style>%s</svg>' % (NS, css, elems(0)))
     return docs
+
+
+ID_TAIL = ('<defs><clipPath id="tl_oc" clipPathUnits="objectBoundingBox"><rect width="0.5" height="1"/></clipPath>'
+           '<mask id="tl_om" maskContentUnits="objectBoundingBox"><rect width="1" height="0.5" fill="white"/></mask>'
+           '<filter id="tl_of"><feOffset dx="2" dy="1"/></filter>'
+           '<linearGradient id="tl_lg"><stop offset="0" stop-color="red"/><stop offset="1" stop-color="blue"/></linearGradient>'
+           '<radialGradient id="tl_rg"><stop offset="0" stop-color="white"/><stop offset="1" stop-color="green"/></radialGradient>'
+           '<pattern id="tl_pt" width="0.25" height="0.25"><rect width="4" height="4" fill="purple"/></pattern>'
+           '<symbol id="tl_sy" viewBox="0 0 10 10"><rect width="20" height="10" fill="brown"/></symbol>'
+           '<marker id="tl_mk" markerWidth="6" markerHeight="6" viewBox="0 0 3 3"><circle cx="2" cy="2" r="3" fill="red"/></marker>'
+           '<path id="tl_ip" d="M 0 0 L 9 9 L 0 9 Z" fill="orange"/><filter id="tl_fi"><feImage xlink:href="#tl_ip"/></filter></defs>'
+           '<rect x="5" y="150" width="30" height="20" clip-path="url(#tl_oc)" mask="url(#tl_om)" filter="url(#tl_of)" fill="url(#tl_lg)" stroke="url(#tl_rg)"/>'
+           '<rect x="45" y="150" width="40" height="30" clip-path="url(#tl_oc)" mask="url(#tl_om)" filter="url(#tl_of)" fill="url(#tl_lg)" stroke="url(#tl_rg)" transform="translate(0 4)"/>'
+           '<circle cx="110" cy="165" r="14" fill="url(#tl_pt)" stroke="url(#tl_pt)" stroke-width="3"/><rect x="130" y="150" width="20" height="20" fill="url(#tl_pt)"/>'
+           '<rect x="155" y="150" width="20" height="20" fill="teal" filter="blur(1)"/><rect x="180" y="150" width="15" height="20" fill="gold" filter="sepia() hue-rotate(30deg)"/>'
+           '<svg x="5" y="175" width="30" height="20" viewBox="0 0 10 10"><circle cx="5" cy="5" r="9" fill="navy"/></svg>'
+           '<use xlink:href="#tl_sy" x="45" y="175" width="30" height="15"/><use xlink:href="#tl_sy" x="85" y="175" width="20" height="20"/>'
+           '<path d="M 115 180 L 140 190 L 165 178" fill="none" stroke="black" marker-start="url(#tl_mk)" marker-end="url(#tl_mk)"/>'
+           '<rect x="170" y="175" width="25" height="20" filter="url(#tl_fi)"/>')
 
 
 def cstr(s):
@@ -603,7 +628,8 @@ def run(ctx):
                        "inserted ids come from the reserved namespace vf_*; the 64-bit string hash of Cache::all_ids is collision-free on the document's ids",
                        "insertions only where all ancestors are container elements (svg, g, defs, symbol, marker, mask, pattern, clipPath, a); "
                        "never inside text content or switch",
-                       "zero-size shapes with a `filter` attribute are not ignorable (a filter on an empty element can paint)",
+                       "a zero-size shape with a filter LINK to a filter with a userSpaceOnUse region is not inserted (a filter on an empty element can paint); "
+                       "zero-size shapes with filter functions, objectBoundingBox filters or missing links are inserted and must leave nothing",
                        "has_valid_transform's determinant test is computed in f64 in the source and idealised as exact in the model"]
     broken = ctx.translate()
     res = ctx.coq_props(extra_targets=['Model/Corr.v'])
@@ -651,7 +677,15 @@ def run(ctx):
         xml = '<svg %s width="200" height="200">%s%s</svg>' % (NS, DEFS, ''.join(skel_xml(k) for k in kids))
         skels.append((kids, xml))
     pdocs = positional_docs(rng, 60 if quick else 500)
-    generated = [("gen%d" % i, x) for i, (_, x) in enumerate(skels)] + [("pos%d" % i, x) for i, x in enumerate(pdocs)]
+    # documents whose LATER elements receive generated ids of every kind (filter functions, objectBoundingBox clip / mask / filter /
+    # gradients / patterns used twice, viewport clips of nested svg, symbol and marker, feImage): a counter moved by an inserted
+    # element shows in the serialised tree
+    idrich = []
+    for i in range(40 if quick else 300):
+        kids = sk.doc()
+        idrich.append('<svg %s width="200" height="200">%s%s%s</svg>' % (NS, DEFS, ''.join(skel_xml(k) for k in kids), ID_TAIL))
+    generated = ([("gen%d" % i, x) for i, (_, x) in enumerate(skels)] + [("pos%d" % i, x.replace('</svg>', ID_TAIL + '</svg>')) for i, x in enumerate(pdocs)]
+                 + [("ids%d" % i, x) for i, x in enumerate(idrich)])
     ctx.cov['positional_css_documents'] = len(pdocs) + sum(1 for t in texts.values() if positional_css(t))
 
     # ------------------------------------------------------------------ K1 svgtree-filter
